@@ -4,9 +4,9 @@
    and what was observed: the per-thread results and the final state of every queue.  The
    model must be able to take every recorded step (run_strict) and must end in the same
    observations.  No proofs. *)
-From Verif Require Import Base Conc.
+From Verif Require Import Params Base Conc.
 
-Record qobs := { qo_vals : list Z; qo_tok : nat }.
+Record qobs := { qo_vals : list Z; qo_tok : nat; qo_cap : nat }.
 Record ccase := {
   k_caps : list nat; k_wg : nat; k_threads : list thread;
   k_sched : list nat;
@@ -31,7 +31,7 @@ Definition init_config (k : ccase) : config :=
   {| queues := map mkq (k_caps k); wg := k_wg k; threads := k_threads k |}.
 
 Definition qobs_ok (s : qstate) (o : qobs) : bool :=
-  list_eqb Z.eqb (qvals s) (qo_vals o) && Nat.eqb (qtok s) (qo_tok o).
+  list_eqb Z.eqb (qvals s) (qo_vals o) && Nat.eqb (qtok s) (qo_tok o) && Nat.eqb (qcap s) (qo_cap o).
 
 Definition results_ok (th : thread) (o : option (list result)) : bool :=
   match o with
